@@ -12,6 +12,7 @@ CONSTANTS
   FixLeave = %(fl)s
   FixWrap = %(fw)s
   FixDead = %(fd)s
+  FixAdopt = TRUE
   MaxTry = 2
   TrackCov = FALSE
   Goal = "none"
